@@ -363,12 +363,21 @@ InsertTrailingSel(c) ==
 (* (with repeated comment texts the greedy matching may blame other comments  *)
 (* than the ones that went; the class is therefore decided by asking whether   *)
 (* everything *but* the trailing trivia at the insertion point is conserved)   *)
+(* operator-separated sequences (BoolOp values, Compare operands): comments   *)
+(* of the window that lie outside the removed operand(s), i.e. between an     *)
+(* adjoining operator and the operand                                         *)
+OperatorGapComments(c) ==
+  IF ~(c.kind \in {"BoolOp", "Compare"}) \/ ~HasElem(c) \/ Whole(c) THEN {}
+  ELSE LET w == W(c) IN {i \in w.lo..w.hi : IsComment(c.T[i]) /\ (i < ELo(c) \/ i > EHi(c))}
 LostClass(c) ==
   IF ~FactsOk(c) \/ ~WOk(c) THEN ""
   ELSE LET w == W(c)
            its == InsertTrailingSel(c)
-       IN IF Lost(c, w) # {} /\ its # {}
-             /\ LostFrom(c, w, MustIdx(c, AllGone(c, w) \cup its), CommentIdx(c.U), 1, 1) = {}
-          THEN "/lost=insert-trailing-trivia" ELSE ""
+           ogc == OperatorGapComments(c)
+           conservedBut(S) == LostFrom(c, w, MustIdx(c, AllGone(c, w) \cup S), CommentIdx(c.U), 1, 1) = {}
+       IN IF Lost(c, w) = {} THEN ""
+          ELSE IF its # {} /\ conservedBut(its) THEN "/lost=insert-trailing-trivia"
+          ELSE IF ogc # {} /\ conservedBut(ogc) THEN "/lost=between-operator-and-operand"
+          ELSE ""
 
 =============================================================================
